@@ -105,6 +105,13 @@ def check(run):
         run.guard("C03.8.implicit-types", cfg, lambda: rule_implicit_types(run, F, cfg))
         run.guard("C03.1.option-chain", cfg + "/polarity", lambda: rule_polarity(run, F, cfg))
         run.guard("C03.1.option-chain", cfg + "/payloads", lambda: rule_payloads(run, F, cfg))
+        from . import C12 as _C12p, C01 as _C01p
+        b124 = run.borrow("C12", only=r"preparsed|single-construction|schema|scheme", why="requests with unsupported schemes are never matched -- also when the "
+                                     "request is built from pre-parsed parts: the scheme is what precedes the first `:`")
+        run.guard("C03.via.C12.4.single-construction", cfg, lambda: _C12p.rule_single(b124, F, cfg))
+        b011 = run.borrow("C01", only=r"add_filter|token-source", why="a rule with a multi-entry `$domain=` list is filed under every one of its domains, "
+                                     "also when it is added to a list that already holds rules")
+        run.guard("C03.via.C01.1.token-source", cfg, lambda: _C01p.rule_store(b011, F, cfg))
         b = run.borrow("C05", only=r"field:(mask|opt_domains|opt_not_domains)\b|key:",
                        why="rules whose options differ must not be fused into one")
         run.guard("C03.via.C05.1.fusion-key", cfg, lambda: _C05.rule_key(b, F, cfg))
@@ -450,6 +457,36 @@ def rule_check_options(run, F, cfg):
         okd = "FROM_DOCUMENT" in e and "is_exception" in e
     run.ob("C03.3.check_options-table", "document-arm", okd,
            "check_cpt_allowed allows a document request only with FROM_DOCUMENT or for exception rules", config=cfg)
+    # ... and the whole function as a table: the request's type bit is tested as it is (not masked, complemented
+    # or widened -- `csp_report` maps to a bit no rule carries and must stay unmatched), the only special case is
+    # the document bit
+    if h:
+        g = h[0]
+        pc = g.local_name(2)
+        DOC = "filters::network::NetworkFilterMask::FROM_DOCUMENT=536870912"
+        got = set()
+        for kind, b, val, conds, _ in conditional_defs(g, 0):
+            cs = []
+            for e, v in sorted(conds.items()):
+                if e.startswith(pc):
+                    cs.append("type==DOCUMENT" if v == 536870912 else ("type!=DOCUMENT" if v == ("not", (536870912,)) else f"type?{v}"))
+                elif e == f"filters::network::NetworkFilterMaskHelper::has_flag(arg:self, {DOC})":
+                    cs.append(f"has(DOCUMENT)=={v}")
+                else:
+                    cs.append(f"{e[:60]}=={v}")
+            got.add((val.replace(pc, "<type bit>").replace(DOC, "DOCUMENT"), tuple(cs)))
+        H_ = "filters::network::NetworkFilterMaskHelper::"
+        want = {(H_ + "has_flag(arg:self, <type bit>)", ("type!=DOCUMENT",)),
+                ("true", ("type==DOCUMENT", "has(DOCUMENT)==1")),
+                (H_ + "is_exception(arg:self)", ("type==DOCUMENT", "has(DOCUMENT)==0"))}
+        other_calls = [strip_generics(t["callee"]) for b, t in g.calls()
+                       if not re.search(r"NetworkFilterMaskHelper::(has_flag|is_exception)$|as std::convert::From<.*>>::from$", strip_generics(t["callee"]))]
+        run.ob("C03.3.check_options-table", "cpt-table", got == want and not other_calls,
+               f"check_cpt_allowed(rule, type) = has_flag(<the request's type bit, as converted>) for every type but document, and "
+               f"has_flag(DOCUMENT) || is_exception() for a document request; extracted {sorted(got)}; other calls {other_calls}",
+               site=g.loc(0), config=cfg,
+               detail="masking the type bit (e.g. `& FROM_ALL_TYPES`) turns the bit of csp_report requests into the empty "
+                      "mask, which every rule `has`")
 
 
 def rule_unsupported(run, F, cfg):
